@@ -166,6 +166,10 @@ def _call(packed):
         return ('err', '%r\n%s' % (item, traceback.format_exc()))
 
 
+def _call_chunk(chunk):
+    return [_call(p) for p in chunk]
+
+
 def _watched(pool, it):
     """A pool silently replaces a worker that was killed (out of memory, say) and the item it held
     is never reported: the map would wait forever.  Notice the replacement and fail loudly instead."""
@@ -195,7 +199,9 @@ def pmap(func, items, procs=None, chunksize=1):
     else:
         ctx = multiprocessing.get_context('fork')
         pool = ctx.Pool(min(procs, len(items)))
-        results = _watched(pool, pool.imap_unordered(_call, [(func, it) for it in items], chunksize))
+        packed = [(func, it) for it in items]
+        chunks = [packed[i:i + chunksize] for i in range(0, len(packed), max(1, chunksize))]
+        results = (r for rs in _watched(pool, pool.imap_unordered(_call_chunk, chunks)) for r in rs)
     try:
         for status, res in results:
             if status == 'err':
